@@ -42,6 +42,11 @@ func FingerprintValue(b []byte) uint32 {
 // AddTo adds fingerprint to message.
 func (FingerprintAttr) AddTo(m *Message) error {
 	l := m.Length
+	// Bytes after the declared length (tolerated by Decode) are not part of
+	// the message: cut them, as Add does, so they are not fingerprinted.
+	last := messageHeaderSize + int(l)
+	m.grow(last)
+	m.Raw = m.Raw[:last]
 	// length in header should include size of fingerprint attribute
 	m.Length += fingerprintSize + attributeHeaderSize // increasing length
 	m.WriteLength()                                   // writing Length to Raw
